@@ -70,7 +70,9 @@ func New(ctx context.Context, log *slog.Logger, opts ...Opt) (*Engine, error) {
 
 	var err error
 	for _, opt := range opts {
-		err = errors.Join(opt(e, &smCfg))
+		// Accumulate, so that every rejected option is reported,
+		// not only the last option's error.
+		err = errors.Join(err, opt(e, &smCfg))
 	}
 	if err != nil {
 		return nil, err
